@@ -104,6 +104,14 @@ def _time_inputs(d):
     return gram.time_inputs(d, 6, 0)
 
 
+def native_tokens(sql):
+    """Format tokens of the last string literal of a time-format text, as the dialect writes them."""
+    import re
+
+    lits = re.findall(r"'([^']*)'", sql)
+    return re.findall(r"%-?[A-Za-z]|[A-Za-z]+", lits[-1]) if lits else []
+
+
 def subterms(t):
     if t["k"] == "stmt":
         return [t["e1"], t["e2"]]
@@ -211,7 +219,7 @@ def run(ctx):
     for (sql, d), (c, v) in bad.items():
         m = c["meta"]
         if m["src"] == "time":
-            toks = set(_re.findall(r"%-?[A-Za-z]", m["tfmt"]))
+            toks = set(native_tokens(sql))
             if len(toks) == 1:
                 time_single_bad.add((d, m["fn"], next(iter(toks))))
     for (sql, d), (c, v) in bad.items():
@@ -221,7 +229,7 @@ def run(ctx):
         if m["src"] == "time":
             import re
 
-            toks = sorted(set(re.findall(r"%-?[A-Za-z]", m["tfmt"])))
+            toks = sorted(set(native_tokens(sql)))
             single = [tk for tk in toks if (d, m["fn"], tk) in time_single_bad]
             if len(toks) > 1 and single:
                 continue  # explained by a token that already fails alone (reported there)
@@ -233,7 +241,8 @@ def run(ctx):
         what = f"{v} in {d or 'base'} for {sql!r}: s1={m.get('s1')!r} s2={m.get('s2')!r} {m.get('error', '')}"
         examples.setdefault(key, what[:400])
         ctx.violation(key, what, {"sql": sql, "dialect": d, "fmt": m.get("fmt")})
-    with open(os.path.join(ctx.work, "key_examples.json"), "w") as f:
+    os.makedirs("/tmp/verif_keys", exist_ok=True)  # triage aid only; nothing registered reads it
+    with open(f"/tmp/verif_keys/{ctx.pid}_{ctx.tier}.json", "w") as f:
         json.dump(examples, f, indent=0, sort_keys=True)
     ctx.notes.update({"verdicts": stats, "texts": len(texts), "pipelines": len(cases), "outside_domain": skipped})
     for c in cases[:: max(1, len(cases) // 3)][:3]:
